@@ -38,6 +38,8 @@ def sym_conditions(mode, xb='weight', prog=None):
                     initial_feed_amount=V('m0', 10.0), initial_feed_composition=x0,
                     permeate_temperature=tp, permeate_pressure=pp, temperature_program=pr)
     tpt, ppt = mode_text(mode)
+    from objs import watch
+    watch(cd)
     return cd, '(Build_Conditions N A T0 m0 %s %s %s %s)' % (x0t, tpt, ppt, prt)
 
 
@@ -104,7 +106,8 @@ def sym_curve_set(m, ncurves, sameT=False, xb='weight'):
         fl = [(V('cj%d_%d_1' % (c, j), 0.5), V('cj%d_%d_2' % (c, j), 0.01)) for j in range(2)]
         curves.append(DiffusionCurve(mixture=m, membrane_name='symmem', feed_temperature=Tc, feed_compositions=comps,
                                      partial_fluxes=fl, permeances=perms))
-    return DiffusionCurveSet(name='symset', diffusion_curves=curves)
+    from objs import watch
+    return watch(DiffusionCurveSet(name='symset', diffusion_curves=curves))
 
 
 def pf_call_stub(self, x, t):
@@ -237,7 +240,7 @@ def cases():
                 m, _ = sym_mixture()
                 p = Pervaporation(pv.Membrane(name='symmem'), m)
                 cd, _ = sym_conditions(mode, xb, None)
-                cset = sym_curve_set(m, 2 if curves == 'multi' else 1, sameT=(curves == 'single_same'))
+                cset = sym_curve_set(m, 2 if curves == 'multi' else 1, sameT=(curves == 'single_same'), xb=xb)
                 ipv = (sym_permeance('ip1', 0.06, 'SI')[0], sym_permeance('ip2', 0.0007, 'GPU')[0]) if ip else None
                 with patch_attr(Pervaporation, 'calculate_partial_fluxes', make_solve_stub(shadowJ)), \
                         patch_attr(PVM, 'find_best_fit', make_fbf_stub(log)), \
@@ -254,8 +257,10 @@ def cases():
             ipt = '(Some (Build_Permeance N ip1 SI, Build_Permeance N ip2 GPU))' if ip else 'None'
             raw1 = sym_fit(1, nb=nb)[1]
             raw2 = sym_fit(2, nb=(nb if curves != 'multi' else 1))[1]
-            call = 'non_ideal_entry N %s %s %s %d dt prec NRTL (okpair Jf) %s %s %s %s %s' % (
-                'true' if iso else 'false', mt, cdt, n, EA_MODEL, single, raw1, raw2, ipt)
+            ncur = 2 if curves == 'multi' else 1
+            cxs = '[%s]' % '; '.join('Build_Composition N cx%d_%d %s' % (c, j, ctype_text(xb)) for c in range(ncur) for j in range(2))
+            call = 'non_ideal_entry N %s %s %s %d dt prec NRTL (okpair Jf) %s %s %s %s %s %s' % (
+                'true' if iso else 'false', mt, cdt, n, EA_MODEL, single, raw1, raw2, ipt, cxs)
 
             def result(em, pm, n=n, log=log, curves=curves):
                 if pm.permeance_fits is None:
